@@ -2,7 +2,7 @@
      read_model (write_model frame) = the rows with non-null keys, each with its key values,
    for every frame, every row-group split, 1..n partition columns, hive and drill.          *)
 From Coq Require Import Decimal DecimalString DecimalZ.
-From Coq Require Import NArith ZArith Bool Ascii String Arith Lia Permutation List.
+From Coq Require Import NArith ZArith Bool Ascii String Arith Lia Permutation List FinFun.
 From Pq Require Import Base.Bytes Proofs.BytesProofs Impl.Partition Proofs.PartitionStr Proofs.PartitionProofs.
 Import ListNotations.
 
@@ -883,4 +883,163 @@ Section E2E.
       now apply (veqb_wf_eq k).
     Qed.
   End Hive.
+
+  (* ================================================================ drill *)
+  Lemma show_Z_inj a b : show_Z a = show_Z b -> a = b.
+  Proof. intros H. pose proof (parse_int_show_Z a) as Ha. rewrite H, parse_int_show_Z in Ha. now injection Ha. Qed.
+
+  Lemma dir_name_inj : FinFun.Injective dir_name.
+  Proof.
+    intros i j H. unfold dir_name, show_nat in H. apply app_inv_head in H. apply show_Z_inj in H. now apply Nat2Z.inj.
+  Qed.
+
+  Lemma drill_texts_facts (l : list str) : Forall (fun s => legal s /\ s <> []) l ->
+    Forall (fun s => clean s /\ s <> []) l /\ filter (has_char c_eq) l = [].
+  Proof.
+    induction 1 as [|s l [[Hc He] Hn] Hl [IH1 IH2]]; cbn [filter]; [split; [constructor|reflexivity]|].
+    rewrite (has_char_false c_eq s He), IH2. split; [constructor; [split; assumption|exact IH1]|reflexivity].
+  Qed.
+
+  Lemma drill_segments ns key : length key = length ns -> dir_segments false ns key = map (show false) key.
+  Proof.
+    revert key. induction ns as [|n ns IH]; intros [|v key] Hl; try discriminate; [reflexivity|].
+    cbn. f_equal. apply IH. now injection Hl.
+  Qed.
+
+  Inductive lclass := LText | LInt | LBool.
+
+  Section Drill.
+    Variable pm : list (str * kind).
+    Variable names : list str.
+    Hypothesis names_nonnil : names <> [].
+    Variable ord : list str -> list str.
+    Hypothesis Hord : forall l x, In x (ord l) <-> In x l.
+    Variable lk : str -> lclass.        (* what a directory level holds *)
+
+    Definition dnames : list str := map dir_name (seq 0 (length names)).
+    Definition rv_drill (v : value) : value := parse_guess (show false v).
+
+    (* an admissible key value of the level with positional name n: no metadata under that name,
+       the text is one non-empty legal path segment, and the level holds integers, booleans or
+       text that none of the guesses of _val_to_num converts *)
+    Definition Pv_drill (n : str) (v : value) : Prop :=
+      alist_get n pm = None /\ legal (show false v) /\ show false v <> [] /\
+      match lk n with
+      | LText => exists s, v = VStr s /\ parse_guess s = VStr s
+      | LInt => exists z, v = VInt z
+      | LBool => exists b, v = VBool b
+      end.
+
+    Lemma rv_drill_cases n v : Pv_drill n v ->
+      match lk n with
+      | LText => exists s, v = VStr s /\ rv_drill v = VStr s
+      | LInt => exists z, v = VInt z /\ rv_drill v = VInt z
+      | LBool => exists b, v = VBool b /\ rv_drill v = VBool b
+      end.
+    Proof.
+      intros [_ [_ [_ H]]]. unfold rv_drill. destruct (lk n).
+      - destruct H as [s [-> Hs]]. exists s. split; [reflexivity|exact Hs].
+      - destruct H as [z ->]. exists z. split; [reflexivity|]. cbn [Partition.show].
+        apply (guess_int F T D parse_float parse_time_pd parse_delta).
+      - destruct H as [b ->]. exists b. split; [reflexivity|]. destruct b; reflexivity.
+    Qed.
+
+    Lemma dnames_nodup : NoDup dnames.
+    Proof. apply FinFun.Injective_map_NoDup; [exact dir_name_inj|apply seq_NoDup]. Qed.
+
+    Lemma drill_texts key : key_ok dnames Pv_drill key ->
+      Forall (fun s => legal s /\ s <> []) (map (show false) key) /\
+      dir_segments false names key = map (show false) key /\ length key = length names.
+    Proof.
+      intros H. assert (Hl : length key = length names).
+      { rewrite <- (F2_length _ _ _ H). unfold dnames. now rewrite map_length, seq_length. }
+      split; [|split; [|exact Hl]].
+      - clear Hl. unfold key_ok in H. revert H. generalize dnames as ns. intros ns H.
+        induction H as [|n v ns key' Hnv Hr IH]; cbn; [constructor|].
+        constructor; [|exact IH]. destruct Hnv as [_ [H1 [H2 _]]]. now split.
+      - now apply drill_segments.
+    Qed.
+
+    Lemma drill_paths key i : key_ok dnames Pv_drill key ->
+      let segs := map (show false) key in
+      dir_path false names key <> [] /\
+      split_on c_slash (dir_path false names key) = segs /\
+      split_on c_slash (rel_path false names key (part_name i)) = segs ++ [part_name i] /\
+      strip_tail (rel_path false names key (part_name i)) = dir_path false names key /\
+      rel_path false names key (part_name i) <> [] /\ length segs = length names /\
+      hive_hits (dir_path false names key) = None /\
+      drill_hits segs = hits_of false dnames key.
+    Proof.
+      intros Hk segs. destruct (drill_texts key Hk) as [Hlg [Eseg Hlen]].
+      destruct (drill_texts_facts _ Hlg) as [Hcl Hf].
+      assert (Hlen' : length segs = length names) by (unfold segs; now rewrite map_length).
+      assert (Hn : segs <> []) by (intros E; rewrite E in Hlen'; destruct names; [congruence|discriminate]).
+      destruct (part_name_clean i) as [Hpc Hpn].
+      destruct (paths_generic segs (part_name i) Hn Hcl Hpc Hpn) as [H1 [H2 [H3 [H4 [H5 H6]]]]].
+      unfold Partition.rel_path, Partition.dir_path. rewrite Eseg. fold segs.
+      repeat split; try assumption.
+      - unfold hive_hits. rewrite H3. fold segs in Hf. now rewrite Hf.
+      - unfold drill_hits, hits_of, dnames. rewrite mapi_from_combine. fold segs. now rewrite Hlen'.
+    Qed.
+
+    Theorem drill_e2e chunks :
+      frame_ok dnames Pv_drill (concat chunks) ->
+      exists sch out,
+        read_model pm ord (write_model false names chunks) = Some (sch, out) /\
+        Permutation out (map (expect dnames rv_drill) (filter nonnull (concat chunks))) /\
+        (filter nonnull (concat chunks) <> [] -> sch = Drill).
+    Proof.
+      apply (e2e false pm names dnames dnames_nodup Pv_drill rv_drill (fun n => lk n = LText)).
+      - intros n v [Hn _]. rewrite Hn. reflexivity.
+      - intros n v Hv Hs. pose proof (rv_drill_cases n v Hv) as Hc. destruct (lk n); [reflexivity| |].
+        + destruct Hc as [z [_ E]]. rewrite E in Hs. discriminate.
+        + destruct Hc as [b [_ E]]. rewrite E in Hs. discriminate.
+      - intros n v Ht Hv. pose proof (rv_drill_cases n v Hv) as Hc. rewrite Ht in Hc.
+        destruct Hc as [s [-> E]]. rewrite E. reflexivity.
+      - intros n v v' Hv Hv' H. pose proof (rv_drill_cases n v Hv) as Hc. pose proof (rv_drill_cases n v' Hv') as Hc'.
+        destruct (lk n).
+        + destruct Hc as [s [_ E]], Hc' as [s' [_ E']]. rewrite E, E' in *. cbn in H.
+          destruct (str_eqb_spec s s'); [now subst|discriminate].
+        + destruct Hc as [z [_ E]], Hc' as [z' [_ E']]. rewrite E, E' in *. cbn in H. apply Z.eqb_eq in H. now subst.
+        + destruct Hc as [b [_ E]], Hc' as [b' [_ E']]. rewrite E, E' in *. cbn in H. apply Bool.eqb_prop in H. now subst.
+      - intros key Hk. destruct (drill_paths key O Hk) as [_ [H2 [_ [_ [_ [_ [_ H8]]]]]]].
+        unfold Partition.path_hits. cbn [snd]. rewrite H2, H8. reflexivity.
+      - intros key Hk. destruct (drill_paths key O Hk) as [H1 [H2 [_ [_ [_ [H6 _]]]]]]. split; [exact H1|]. now rewrite H2.
+      - intros key i Hk. destruct (drill_paths key i Hk) as [_ [_ [_ [H4 [H5 _]]]]]. now split.
+      - intros key i Hk. destruct (drill_paths key i Hk) as [_ [_ [H3 [_ [_ [_ [_ H8]]]]]]].
+        unfold Partition.row_partitions. rewrite H3, removelast_last, H8. exists []. now rewrite app_nil_r.
+      - intros _ key Hk. apply (drill_paths key O Hk).
+      - exact Hord.
+      - intros n a b Ha Hb H. pose proof (rv_drill_cases n a Ha) as Hc. pose proof (rv_drill_cases n b Hb) as Hc'.
+        destruct (lk n).
+        + destruct Hc as [s [-> _]], Hc' as [s' [-> _]]. cbn in H. destruct (str_eqb_spec s s'); [now subst|discriminate].
+        + destruct Hc as [z [-> _]], Hc' as [z' [-> _]]. cbn in H. apply Z.eqb_eq in H. now subst.
+        + destruct Hc as [b0 [-> _]], Hc' as [b' [-> _]]. cbn in H. apply Bool.eqb_prop in H. now subst.
+    Qed.
+
+    Theorem drill_placement chunks : frame_ok dnames Pv_drill (concat chunks) ->
+      Permutation (concat (map snd (write_model false names chunks))) (filter nonnull (concat chunks)) /\
+      forall f r, In f (write_model false names chunks) -> In r (snd f) ->
+        nonnull r = true /\ exists i, fst f = rel_path false names (key_of r) (part_name i).
+    Proof.
+      apply (placement false names dnames Pv_drill).
+      intros n a b Ha Hb H. pose proof (rv_drill_cases n a Ha) as Hc. pose proof (rv_drill_cases n b Hb) as Hc'.
+      destruct (lk n).
+      + destruct Hc as [s [-> _]], Hc' as [s' [-> _]]. cbn in H. destruct (str_eqb_spec s s'); [now subst|discriminate].
+      + destruct Hc as [z [-> _]], Hc' as [z' [-> _]]. cbn in H. apply Z.eqb_eq in H. now subst.
+      + destruct Hc as [b0 [-> _]], Hc' as [b' [-> _]]. cbn in H. apply Bool.eqb_prop in H. now subst.
+    Qed.
+  End Drill.
 End E2E.
+
+(* ---------------------------------------------------------------- a closed instance
+   (no floats, timestamps or timedeltas at all) used for computed witnesses and non-vacuity *)
+Definition E0 := Empty_set.
+Definition e0_eqb (a b : E0) : bool := true.
+Definition cvalue := value E0 E0 E0.
+Definition cwrite (hive : bool) (names : list str) (chunks : list (list (row E0 E0 E0 nat))) :=
+  write_model E0 E0 E0 e0_eqb e0_eqb e0_eqb (fun _ _ => false)
+    (fun f => match f with end) (fun t => match t with end) (fun t => match t with end) nat hive names chunks.
+Definition cread (pm : list (str * kind)) (files : list (str * list (row E0 E0 E0 nat))) :=
+  read_model E0 E0 E0 e0_eqb e0_eqb e0_eqb (fun _ _ => false)
+    (fun _ => None) (fun _ => None) (fun _ => None) (fun _ => None) (fun _ => None) nat pm (fun l => l) files.
